@@ -11,11 +11,13 @@
 (*   Check     (code -> spec) for every recorded pair (pepit_tau, theoretical_tau), fixed point 1e-6:        *)
 (*             tight / upper-bound / lower-bound against the closed form, doc-formula (the example's own     *)
 (*             theoretical_tau equals the docstring formula), equivalent-formulation (complexified variants   *)
-(*             return the same value), no-value (the example fails inside its documented range).             *)
+(*             return the same value), no-value / no-finite-value (the example fails, or its model is        *)
+(*             certified unbounded / infeasible, inside its documented range).                               *)
 (* Parameters that enter a closed form through a square root are enumerated by their root ("_s" = sqrt of    *)
 (* the condition number, "_r" = sqrt(mu)); the derived argument of the example is printed with the grid.     *)
 EXTENDS Rat, Sequences, FiniteSets, TLC, Json, IOUtils
-CONSTANTS TraceMode
+CONSTANTS TraceMode,
+          Dense          \* TRUE (thorough tier): one more candidate value for the commonest real parameters
 R(n, d) == Norm(n, d)
 RECURSIVE RPow(_, _)
 RPow(r, n) == IF n = 0 THEN One ELSE RMul(r, RPow(r, n - 1))
@@ -23,8 +25,14 @@ KV(k, r) == [k |-> k, n |-> r[1], d |-> r[2]]
 Has(a, k) == \E i \in 1..Len(a) : a[i].k = k
 P(a, k) == LET i == CHOOSE i \in 1..Len(a) : a[i].k = k IN <<a[i].n, a[i].d>>
 N(a, k) == P(a, k)[1]            \* integer parameter
+\* thorough tier: one more candidate value for the commonest real parameters (small denominators: the closed forms are
+\* evaluated in 32-bit rationals)
+Extra(k) == CASE k = "gamma" -> {R(3, 4)} [] k = "mu" -> {R(1, 4)} [] k = "alpha" -> {R(3, 2)} [] k = "epsilon" -> {R(1, 4)}
+              [] k = "zeta" -> {Half} [] k = "lam" -> {R(1, 4)} [] k = "_s" -> {R(3, 1)} [] k = "_r" -> {Two} [] k = "t" -> {Two}
+              [] OTHER -> {}
+Densify(k, S) == IF Dense /\ ~\E r \in S : r[2] = 1 /\ k \in {"t"} /\ r[1] > 2 THEN S \cup Extra(k) ELSE S
 RECURSIVE Prod(_)
-Prod(spec) == IF spec = <<>> THEN {<<>>} ELSE {<<KV(spec[1][1], r)>> \o rest : r \in spec[1][2], rest \in Prod(Tail(spec))}
+Prod(spec) == IF spec = <<>> THEN {<<>>} ELSE {<<KV(spec[1][1], r)>> \o rest : r \in Densify(spec[1][1], spec[1][2]), rest \in Prod(Tail(spec))}
 Ints(s) == {RI(n) : n \in s}
 Lt(a, b) == ~RLeq(b, a)
 \* ------------------------------------------------------------------------------------------------ the table
@@ -55,7 +63,7 @@ Table == <<
  <<"inexact_proximal/partially_inexact_douglas_rachford_splitting", "tight", "rat", << <<"mu", {R(1, 4), Half}>>, <<"L", {One, Two}>>, <<"n", Ints({1, 2})>>, <<"gamma", {One, Two}>>, <<"sigma", {Z, R(1, 4), Half}>> >> >>,
  <<"inexact_proximal/relatively_inexact_proximal_point_algorithm", "upper", "own", << <<"n", Ints({1, 3})>>, <<"gamma", {One, R(2, 1)}>>, <<"sigma", {Z, R(3, 10), R(4, 5)}>> >> >>,
  <<"low_dimensional/frank_wolfe", "upper", "rat", << <<"L", {One}>>, <<"D", {One}>>, <<"n", Ints({1, 3})>> >> >>,
- <<"low_dimensional/gradient_descent", "upper", "rat", << <<"L", {One}>>, <<"gamma", {One}>>, <<"n", Ints({1, 3})>> >> >>,
+ <<"low_dimensional/gradient_descent", "upper", "rat", << <<"L", {One}>>, <<"gamma", {Half, One}>>, <<"n", Ints({1, 3})>> >> >>,
  <<"low_dimensional/halpern_iteration", "tight", "rat", << <<"n", Ints({1, 3})>> >> >>,
  <<"low_dimensional/inexact_gradient", "tight", "rat", << <<"L", {One}>>, <<"mu", {R(1, 10)}>>, <<"epsilon", {R(1, 10), Half}>>, <<"n", Ints({1, 2})>> >> >>,
  <<"low_dimensional/optimized_gradient", "tight", "own", << <<"L", {One, R(3, 1)}>>, <<"n", Ints({1, 3})>> >> >>,
@@ -122,6 +130,9 @@ InRange(ex, a) ==
     [] ex \in {"nonconvex/gradient_descent", "low_dimensional/gradient_descent", "unconstrained/gradient_descent",
                "stochastic/randomized_coordinate_descent_smooth_convex", "stochastic/randomized_coordinate_descent_smooth_strongly_convex"} ->
           RLeq(GL(a), One)                                                                                                 \* "when gamma <= 1/L"
+    [] ex \in {"unconstrained/accelerated_gradient_convex", "composite/accelerated_proximal_gradient"} -> P(a, "mu") = Z     \* "for mu = 0" / "when mu = 0"
+    [] ex = "unconstrained/inexact_accelerated_gradient" -> P(a, "epsilon") = Z                                           \* "when epsilon = 0"
+    [] ex = "composite/improved_interior_algorithm" -> P(a, "mu") = One          \* no range is documented for the kernel's modulus: reference setting only
     [] ex = "unconstrained/gradient_descent_qg_convex" -> Lt(GL(a), One)                                                   \* "when gamma < 1/L"
     [] ex \in {"nonconvex/no_lips_1", "nonconvex/no_lips_2"} -> GL(a) = Half                                               \* "equal to 1/(2L) for guarantee"
     [] ex \in {"potential/accelerated_gradient_method", "potential/gradient_descent_lyapunov_1", "potential/gradient_descent_lyapunov_2",
@@ -222,7 +233,7 @@ Theory(ex, a) ==
     [] OTHER -> Z
 \* ---- region labels used in violation signatures (default: the parameter values themselves)
 Region(ex, a) ==
-  CASE ex = "nonconvex/gradient_descent" /\ Lt(GL(a), One) -> "gamma<1/L"
+  CASE ex \in {"nonconvex/gradient_descent", "low_dimensional/gradient_descent"} /\ Lt(GL(a), One) -> "gamma<1/L"
     [] ex = "fixed_point/krasnoselskii_mann_constant_step_sizes" /\ Lt(R(N(a, "n"), N(a, "n") + 1), RSq(RSub(RMul(Two, P(a, "gamma")), One))) -> "gamma>(1+sqrt(n/(n+1)))/2"
     [] ex = "fixed_point/optimal_contractive_halpern_iteration" /\ P(a, "gamma") = One -> "gamma=1"
     [] ex = "monotone/optimal_strongly_monotone_proximal_point" /\ P(a, "mu") = Z -> "mu=0"
@@ -258,7 +269,7 @@ Th(t) == IF t.form = "rat" THEN ToMicro(Theory(t.ex, Pseq(t))) ELSE t.theo
 RelTol(x) == (IF Abs2(x) > 1000 THEN Abs2(x) ELSE 1000) \div 1000 + 1
 Clauses == <<"value", "rate", "doc-formula", "equivalent-formulation">>
 Eval(t, c) ==
-   CASE c = "value" -> IF t.status = "error" THEN {"no-value"} ELSE {}
+   CASE c = "value" -> IF t.status = "error" THEN {"no-value"} ELSE IF t.status = "unbounded" THEN {"no-finite-value"} ELSE {}
      [] c = "doc-formula" ->
           IF t.form = "rat" /\ t.hastheo = 1 /\ Abs2(t.theo - ToMicro(Theory(t.ex, Pseq(t)))) > 2 + Abs2(t.theo) \div 100000 THEN {"doc-formula"} ELSE {}
      [] t.status # "ok" -> {}
